@@ -78,6 +78,80 @@ def _self_calls(p, f) -> list[str]:
     return out
 
 
+def _maybe_none(m, e: ast.AST) -> bool:
+    """Can this argument expression be None?  A None literal; an attribute that some statement of the package sets to None
+    (or whose initialiser / annotation says Optional)."""
+    if isinstance(e, ast.Constant):
+        return e.value is None
+    if isinstance(e, ast.IfExp):
+        return _maybe_none(m, e.body) or _maybe_none(m, e.orelse)
+    if isinstance(e, ast.Attribute):
+        from ..common import attr_stores
+        for f, st, t in attr_stores(m, e.attr, skip_cli=False):
+            v = getattr(st, "value", None)
+            if isinstance(v, ast.Constant) and v.value is None:
+                return True
+            ann = getattr(st, "annotation", None)
+            if ann is not None and ("Optional" in ast.unparse(ann) or "None" in ast.unparse(ann)):
+                return True
+        raw = [x for mod in m.modules.values() for c in mod.classes.values() for x in c.node.body
+               if isinstance(x, ast.AnnAssign) and isinstance(x.target, ast.Name) and x.target.id == e.attr]
+        return any((x.value is not None and isinstance(x.value, ast.Constant) and x.value.value is None)
+                   or "Optional" in ast.unparse(x.annotation) or "None" in ast.unparse(x.annotation) for x in raw)
+    return False
+
+
+def _strict_field_uses(cls, m) -> dict:
+    """Fields of an exception class that its construction code (__init__ / __post_init__ / __new__) uses in a way that fails for
+    None: a format spec or conversion in an f-string / format(), arithmetic, subscripting, an attribute or method, int()/hex()/len().
+    -> {field: node}"""
+    out: dict = {}
+    for name in ("__init__", "__post_init__", "__new__"):
+        f = cls.methods.get(name)
+        if f is None:
+            continue
+        s0 = f.params[0] if f.params else "self"
+
+        def fld(x: ast.AST):
+            if isinstance(x, ast.Attribute) and isinstance(x.value, ast.Name) and x.value.id == s0:
+                return x.attr
+            if isinstance(x, ast.Name) and x.id in f.params[1:]:
+                return x.id
+            return None
+
+        for n in ast.walk(f.raw_node if hasattr(f, "raw_node") else f.__dict__.get("raw_node", f.node)):
+            cands: list = []
+            if isinstance(n, ast.FormattedValue) and (n.format_spec is not None):
+                cands.append(n.value)
+            elif isinstance(n, ast.BinOp):
+                cands += [n.left, n.right]
+            elif isinstance(n, ast.UnaryOp) and not isinstance(n.op, ast.Not):
+                cands.append(n.operand)
+            elif isinstance(n, ast.Subscript):
+                cands.append(n.value)
+            elif isinstance(n, ast.Attribute) and fld(n) is None:
+                cands.append(n.value)
+            elif isinstance(n, ast.Call) and isinstance(n.func, ast.Name) and n.func.id in ("int", "hex", "bin", "oct", "len", "format", "abs", "chr", "ord"):
+                cands += n.args[:1]
+            elif isinstance(n, ast.Call) and isinstance(n.func, ast.Attribute) and n.func.attr == "format" and isinstance(n.func.value, ast.Constant) \
+                    and isinstance(n.func.value.value, str) and ":" in n.func.value.value:
+                cands += list(n.args)
+            for c in cands:
+                k = fld(c)
+                if k is not None and k not in out:
+                    out[k] = (f, n)
+    return out
+
+
+def _ctor_fields(cls) -> list:
+    """Constructor parameter names of a dataclass-like exception class (annotated class-level fields, or __init__ parameters)."""
+    init = cls.methods.get("__init__")
+    if init is not None:
+        return list(init.params[1:])
+    return [x.target.id for x in cls.node.body if isinstance(x, ast.AnnAssign) and isinstance(x.target, ast.Name)]
+
+
+
 def run(ctx: Ctx) -> None:
     m = ctx.model
     eff = effects(ctx)
@@ -114,6 +188,20 @@ def run(ctx: Ctx) -> None:
                     r.viol(f"{key}|wrong-order-path", f.loc(p.term_node or f.node),
                            f"{key}: a call with next_cycle != {k} does not end in raise StepSequenceError",
                            p.labels())
+                elif isinstance(exc, ast.Call):
+                    # building the error must not fail itself: a field the class formats / computes with while it is constructed
+                    # must not be handed a value that can be None at this point
+                    strict = _strict_field_uses(cls, m)
+                    fields = _ctor_fields(cls)
+                    given = {fields[i]: a for i, a in enumerate(exc.args) if i < len(fields)}
+                    given.update({kw.arg: kw.value for kw in exc.keywords if kw.arg})
+                    for fld_, (cf, node) in strict.items():
+                        a = given.get(fld_)
+                        if a is not None and _maybe_none(m, a):
+                            r.viol(f"{key}|error-construction|{fld_}", f.loc(a),
+                                   f"{key}: StepSequenceError is built with {fld_}=`{seg(f, a)}`, which can be None (before the first instruction has "
+                                   f"begun), and {short(cf.qname)} uses that field in `{' '.join(ast.unparse(node).split())[:60]}`: the call dies with "
+                                   "TypeError while constructing the error instead of raising the sequencing error", p.labels())
         r.inst(f"{key}|terminators", {"done_paths": ndone, "wrong_order_paths": nwrong})
         if nwrong == 0:
             r.viol(f"{key}|no-sequence-test", f.loc(), f"{key}: no path tests next_cycle against {k}")
